@@ -289,9 +289,23 @@ pub fn run(run: &Run) {
         run.violation(&format!("ASCII lexicon: {}", bad.join("; ")), json!({"op": "ascii_lexicon", "mismatches": bad}), &[]);
     }
     let tier = run.tier;
+    // KF-6: the README grammar's copula class is a *pattern* (punct_sym "-" punct_sym, ...), wider
+    // than the shipped copula table; '-' and '_' are both name characters and punct_sym, so a name
+    // holding [-_] '-' [-_] (p---q, x_-_y) contains a grammar copula although it contains none of
+    // the format's copulas. Feature computed from the name alone.
+    fn name_holds_grammar_copula(name: &str) -> bool {
+        let c: Vec<char> = name.chars().collect();
+        c.windows(3).any(|w| (w[0] == '-' || w[0] == '_') && w[1] == '-' && (w[2] == '-' || w[2] == '_'))
+    }
+    const KF6: &str = "name-holding-the-grammar-copula-pattern-punct-dash-punct";
     let distinct = crate::distinct::Distinct::new();
     let mut vals: Vec<V> = u::u_term(&f, tier).into_iter().map(V::term).collect();
     vals.extend(u::u_sent(&f));
+    // names holding the grammar's copula *pattern* (KF-6), both tiers
+    for n in ["p---q", "x_-_y", "x--_y"] {
+        vals.push(V::term(R::word(n)));
+        vals.push(V::term(R::pair(Tag::Inh, R::atom(Tag::IVar, n), R::word("a"))));
+    }
     // the property restricts names to letters, digits, '_' and inner '-' (the grammar's atom_char);
     // the thorough name alphabet also has an emoji name, which is outside C11's quantifier
     let before = vals.len();
@@ -305,7 +319,8 @@ pub fn run(run: &Run) {
         distinct.add(&s);
         let k = match v.kind() { Kind::Term => "term", Kind::Sentence => "sentence", Kind::Task => "task" };
         if let Err(msg) = crate::watch::case(&s, || case(&s, k)) {
-            run.violation(&msg, json!({"op": "grammar_conformance_enum", "value": v.to_json(), "text": s}), &[]);
+            let feats: Vec<String> = if v.term.any(&|n| name_holds_grammar_copula(&n.name)) { vec![KF6.to_string()] } else { vec![] };
+            run.violation(&msg, json!({"op": "grammar_conformance_enum", "value": v.to_json(), "text": s}), &feats);
         }
     });
     let mut lv: Vec<LN> = lexu::u_term(&f, 1, tier == Tier::Thorough).into_iter().map(LN::Term).collect();
@@ -326,7 +341,15 @@ pub fn run(run: &Run) {
         let s = f.l.format_narsese(x);
         distinct.add(&s);
         if let Err(msg) = crate::watch::case(&s, || case(&s, kind_name(x))) {
-            run.violation(&msg, json!({"op": "grammar_conformance_lexical", "value": ln_to_json(x), "text": s}), &[]);
+            fn any_name(t: &LTerm, f: &dyn Fn(&str) -> bool) -> bool {
+                match t {
+                    LTerm::Atom { name, .. } => f(name),
+                    LTerm::Compound { terms, .. } | LTerm::Set { terms, .. } => terms.iter().any(|k| any_name(k, f)),
+                    LTerm::Statement { subject, predicate, .. } => any_name(subject, f) || any_name(predicate, f),
+                }
+            }
+            let feats: Vec<String> = if any_name(crate::props::c02::term_of(x), &name_holds_grammar_copula) { vec![KF6.to_string()] } else { vec![] };
+            run.violation(&msg, json!({"op": "grammar_conformance_lexical", "value": ln_to_json(x), "text": s}), &feats);
         }
     });
     run.add_distinct(distinct.len());
